@@ -58,7 +58,7 @@ def register(reg):
              "else (0 <= start < stop) if length is None "
              "else (0 <= start < stop and start < length)))")
     reg.contract(
-        "werkzeug/http.py:is_byte_range_valid", prop=P,
+        "werkzeug/http.py:is_byte_range_valid", modifies=[], prop=P,
         params={"start": "Optional[int]", "stop": "Optional[int]", "length": "Optional[int]"},
         returns="bool",
         ensures=["result == valid_range(start, stop, length)"],
